@@ -160,12 +160,21 @@ impl Workspace {
         let created_at_ms = now_ms();
         let checkpoint_root = self.checkpoints_dir.join(session_id).join(&checkpoint_id);
         let files_root = checkpoint_root.join("files");
+
+        // Resolve every path against the workspace root before anything is created, so a
+        // refused request leaves nothing behind in the checkpoint store.
+        let mut relative = Vec::new();
+        for path in files {
+            relative.push(self.to_relative(path)?);
+        }
         fs::create_dir_all(&files_root)?;
 
         let mut entries = Vec::new();
 
-        for path in files {
-            let rel = self.to_relative(path)?;
+        for rel in relative {
+            // Read through the root-relative location that is recorded (and later restored),
+            // not through the caller's spelling, which is relative to the process cwd.
+            let path = &self.root.join(&rel);
             let dest = files_root.join(&rel);
 
             if path.exists() {
@@ -290,9 +299,20 @@ impl Workspace {
         } else {
             self.root.join(path)
         };
-        abs.strip_prefix(&self.root)
+        let rel = abs
+            .strip_prefix(&self.root)
             .map(|p| p.to_path_buf())
-            .map_err(|_| io::Error::new(io::ErrorKind::InvalidInput, "path outside workspace"))
+            .map_err(|_| io::Error::new(io::ErrorKind::InvalidInput, "path outside workspace"))?;
+        if rel
+            .components()
+            .any(|component| matches!(component, Component::ParentDir))
+        {
+            return Err(io::Error::new(
+                io::ErrorKind::InvalidInput,
+                "path escapes workspace root",
+            ));
+        }
+        Ok(rel)
     }
 
     fn safe_join(&self, rel: &Path) -> io::Result<PathBuf> {
